@@ -72,6 +72,26 @@ def run(ctx):
     run_histories_fmt(s, hs, ctx)
     streams = [s]
 
+    # a frame answered with NAK contributes nothing - also when it was refused because no transfer was open: frames
+    # (valid and damaged) in front of the ENQ, between two sessions and behind the last EOT of a connection
+    ot = Stream("frames-outside-a-transfer")
+    hs = []
+    for _ in range(6000 if ctx.thorough else 800):
+        evs = []
+        for _k in range(r.choice([1, 2, 3])):
+            for _j in range(r.choice([0, 1, 1, 2])):
+                stray = gens.message_frames(r, seq=r.randrange(8), parts=r.choice([1, 1, 2]))[0]
+                if r.random() < 0.3:
+                    stray = [gens.corrupt(r, stray[0])[0]]
+                evs += [("d", f) for f in stray[:r.choice([1, len(stray)])]]
+            sess, nc = session(r, corrupt_p=0.1)
+            evs += sess
+        if any(gens.is_vendor_line(e[1]) for e in evs if e[0] == "d"):
+            continue
+        hs.append((r.choice(FORMATS), evs + gens.PROBE, {"nontrivial": True}))
+    run_histories_fmt(ot, hs, ctx)
+    streams.append(ot)
+
     # the same kind of sessions in an interpreter started with -O (assert statements are compiled away there)
     oq = Stream("python-O")
     res = common.run_under_O("C01", "optimised_sessions", 3000 if ctx.thorough else 400, "C01.O/%d" % common.seed())
